@@ -34,14 +34,21 @@ def drop_deleted(text):
     return re.sub(r"(?m)^D\s*(?:/\*.*?\*/\s*)*#\d+=.*?;\n", "", text, flags=re.S)
 
 
+def reuses(tag):
+    """every second scenario reloads the working-session file into the session that wrote it (the reader replaces the
+    population; the ids in the file are the ids of the session) instead of into a fresh one"""
+    return sum(map(ord, tag)) % 2 == 1
+
+
 def script(tag, sc, bwd, fpath, cycles):
     n = len(sc["file"])
+    fresh = [] if reuses(tag) else ["new 0"]
     L = ["new 0", "read %s" % fpath, "states", "writenv %s/%s-o0.p21" % (bwd, tag)]
     for i in range(n):
         L += ["state %d %s" % (sc["file"][i]["id"], FULL[sc["states"][i]]), "states"]
     L += ["writenv %s/%s-x.p21" % (bwd, tag), "writews %s/%s-w1.ws" % (bwd, tag)]
     for c in range(cycles):
-        L += ["new 0", "readws %s/%s-w%d.ws" % (bwd, tag, c + 1), "states", "writenv %s/%s-p%d.p21" % (bwd, tag, c + 1),
+        L += fresh + ["readws %s/%s-w%d.ws" % (bwd, tag, c + 1), "states", "writenv %s/%s-p%d.p21" % (bwd, tag, c + 1),
               "writews %s/%s-w%d.ws" % (bwd, tag, c + 2)]
     L += ["new 0", "read %s/%s-x.p21" % (bwd, tag), "states", "writenv %s/%s-x2.p21" % (bwd, tag)]
     return L
@@ -72,7 +79,9 @@ def events(tag, sc, res, bwd, cycles, proj=None):
             ev.append(json.dumps({"e": "State", "i": i + 1, "s": sc["states"][i], "pop": cur}))
         nx("writenv"); nx("writews")
         for c in range(cycles):
-            nx("new"); nx("readws")
+            if not reuses(tag):
+                nx("new")
+            nx("readws")
             st = nx("states"); nx("writenv"); nx("writews")
             wfile = proj("%s/%s-w%d.ws" % (bwd, tag, c + 1))
             pop = proj("%s/%s-p%d.p21" % (bwd, tag, c + 1), st["list"])
